@@ -33,7 +33,7 @@ def r_resolve(rows, row, path):
                 return ABSENT
             obj = hit[-1]
         else:
-            return v
+            return ABSENT if v is None else v          # a null cell: the entity does not have the tag
     return obj
 
 def kind_of(v):
@@ -255,6 +255,7 @@ VALUES = '''
 VALS = [ABSENT, MARKER, None, 5, 5.0, 6, -3, 5.5, 1, 0, "a  b", "a b", Quantity(5.0, "m"), Quantity(5.0, "s"), Quantity(7, "m"), "abc", "abd", "ab d", "5",
         Uri("http://x"), Ref("x"), Ref("y"), Ref("x", "dis"), True, False, datetime.date(2020, 2, 29), datetime.date(2021, 1, 1),
         datetime.time(12, 30, 0), datetime.time(1, 0, 0), NA, [1], {"a": 1}, Coordinate(1, 2)]
+PVALS = VALS + [0.0, -0.0, "", [], {}, Quantity(0, "m"), Quantity(0), Uri(""), Coordinate(0, 0), REMOVE, XStr("hex", ""), Bin("")]
 '''
 
 
@@ -305,6 +306,30 @@ def gen(tier):
 ''' % (li, OPS, ltxt, lpy)
         H.append(xhair.Harness('atom_%d' % li, src, timeout=120 if quick else 600,
                                what='six comparisons against the literal %s x row value of every kind (absent, marker, null, numbers incl. a symbolic int, quantities, strings, uri, refs, bools, date, time, NA, list, dict, coord)' % ltxt))
+    # tag presence: `t`, `not t`, `r->t` for a tag whose value is of every kind, the falsy ones included
+    src = '''def presence(vi: int, sym: int, useint: bool, form: int) -> bool:
+    """
+    pre: 0 <= vi < len(PVALS) and 0 <= form <= 4
+    post: _
+    """
+    v = sym if useint else PVALS[conc(vi, 0, len(PVALS) - 1)]
+    row = {'id': 'a', 'other': 1}
+    if v is not ABSENT:
+        row['tx'] = v
+    rows = [row, {'id': 'b', 'tx': MARKER, 'r': Ref('a')}, {'id': 'c', 'r': Ref('c')}, {'id': 'd', 'tx': 0, 'r': Ref('nowhere')}]
+    f = conc(form, 0, 4)
+    if f == 0:
+        return check_filter('tx', ('has', ['tx']), rows)
+    if f == 1:
+        return check_filter('not tx', ('not', ['tx']), rows)
+    if f == 2:
+        return check_filter('r->tx', ('has', ['r', 'tx']), rows)
+    if f == 3:
+        return check_filter('not r->tx', ('not', ['r', 'tx']), rows)
+    return check_filter('tx and other or not tx and id', ('or', ('and', ('has', ['tx']), ('has', ['other'])), ('and', ('not', ['tx']), ('has', ['id']))), rows)
+'''
+    H.append(xhair.Harness('presence', src, timeout=120 if quick else 600,
+                           what='tag presence (t, not t, r->t, not r->t, inside and/or) for a tag holding a value of every kind: absent, null, marker, zero, false, empty string/list/dict, a symbolic int, ...'))
     # two literals in one filter (literal tables, caches keyed by value, ...): every ordered pair of literal kinds
     lits_src = 'LITS = [%s]\n' % ', '.join('(%r, %s)' % (t, p) for t, p in ATOM_LITS)
     src = lits_src + '''def two_literals(i: int, j: int, conj: bool, vi: int, vj: int) -> bool:
